@@ -407,6 +407,46 @@ example :
     let s : State := { dbs := [(0, ⟨[(b "k", ⟨.str (b "v"), none⟩)], []⟩)], mem := 57 }
     ((handleRename c [b "rename", b "k", b "k"]).run c s).1.lookup 0 (b "k") = some ⟨.str (b "v"), none⟩ := by decide
 
+/-- **RENAME moves the value with its own deadline** (repaired in /repo by a `fix:` commit; before it the moved
+    value took the deadline of the key it overwrote and lost its own). For every state, every live source key
+    and EVERY destination (absent, stored with or without a deadline, even stale): the reply is OK, the
+    destination reads as the source's value under the source's deadline, the source is gone, and no other key
+    of the database is touched. -/
+theorem rename_moves_value_and_deadline (c : Ctx) (s : State) (old new : Bytes) (e : Entry) (hm : c.cfg.maxMemory = 0)
+    (h : s.lookup c.db old = some e) (hlive : e.expired c.now = false) (hv : e.val ≠ .nil) (hne : old ≠ new) :
+    ((handleRename c [b "rename", old, new]).run c s).2 = .done (.ok okReply) ∧
+    ((handleRename c [b "rename", old, new]).run c s).1.lookup c.db new = some ⟨e.val, e.exp⟩ ∧
+    ((handleRename c [b "rename", old, new]).run c s).1.lookup c.db old = none ∧
+    (∀ k2, old ≠ k2 → new ≠ k2 →
+      ((handleRename c [b "rename", old, new]).run c s).1.lookup c.db k2 = s.lookup c.db k2) := by
+  obtain ⟨s', hrun, h1, h2, h3⟩ := handleRename_run c s old new e hm h hlive hv hne
+  rw [hrun]
+  exact ⟨rfl, h1, h2, h3⟩
+
+/-- **a read returns the renamed value**: GET of the new name answers the value, GET of the old name nil -/
+theorem get_after_rename (c : Ctx) (s : State) (old new t : Bytes) (e : Entry) (hm : c.cfg.maxMemory = 0)
+    (h : s.lookup c.db old = some e) (hlive : e.expired c.now = false) (hv : e.val ≠ .nil) (hne : old ≠ new)
+    (ht : e.val.fmtV = some t) :
+    ((handleGet c [b "get", new]).run c ((handleRename c [b "rename", old, new]).run c s).1).2 = .done (.ok (simpleStr t)) ∧
+    ((handleGet c [b "get", old]).run c ((handleRename c [b "rename", old, new]).run c s).1).2 = .done (.ok nilBulk) := by
+  obtain ⟨s', hrun, h1, h2, _⟩ := handleRename_run c s old new e hm h hlive hv hne
+  rw [hrun]
+  have hl : (⟨e.val, e.exp⟩ : Entry).expired c.now = false := hlive
+  refine ⟨?_, ?_⟩
+  · simp [handleGet, keysExist_single, h1, getValues_live _ _ _ _ h1 hl, plusV, ht]
+  · simp [handleGet, keysExist_single, h2]
+
+/-- non-vacuity (the former witness of the defect): SET k1 old PX 1000; SET k2 7 PX 3000; RENAME k1 k2 leaves k2
+    holding `old` under k1's deadline 2000 (it was 4000, k2's); a source without a deadline clears the target's -/
+example :
+    let c : Ctx := { db := 0, now := 1000 }
+    let s : State := { dbs := [(0, ⟨[(b "k1", ⟨.str (b "old"), some 2000⟩), (b "k2", ⟨.int 7, some 4000⟩),
+                                     (b "k3", ⟨.str (b "p"), none⟩)], [b "k1", b "k2"]⟩)], mem := 0 }
+    ((handleRename c [b "rename", b "k1", b "k2"]).run c s).1.lookup 0 (b "k2") = some ⟨.str (b "old"), some 2000⟩ ∧
+    ((handleRename c [b "rename", b "k3", b "k2"]).run c s).1.lookup 0 (b "k2") = some ⟨.str (b "p"), none⟩ ∧
+    ((handleRename c [b "rename", b "k1", b "k9"]).run c s).1.lookup 0 (b "k9") = some ⟨.str (b "old"), some 2000⟩ ∧
+    ((handleRename c [b "rename", b "k1", b "k9"]).run c s).1.lookup 0 (b "k1") = none := by decide
+
 /-- a stale key is still "there": SET k v NX is refused on a key whose deadline has passed -/
 theorem stale_key_refuses_nx_witness :
     let c : Ctx := { db := 0, now := 2000 }
